@@ -27,7 +27,8 @@ LEVEL_TEXT = ("Exploration with exhaustive pockets: every (tree, node) pair and,
               "nodes, every removal subset of the generated trees is executed through the real "
               "functions and compared with the reference model; larger trees and the rule-based "
               "cuts are sampled (thresholds on / just below / just above actual branch lengths)."
-              "Cut transform instances are first applied to a decoy tree (no state may carry over).")
+              "Cut transform instances are first applied to a decoy tree (no state may carry over)."
+              " Mapping containers are handed over fresh and re-used (still holding an earlier, larger result).")
 LEVEL_NOTE = ("Encodes my reading of the documented cut rules (DESIGN.md C06); near-threshold "
               "tip-branch lengths (within float32 rounding of the threshold) are classified "
               "inconclusive, exact ties are decided on integer-length geometry.")
@@ -43,7 +44,7 @@ ASSUMPTIONS = [
 REQUIRED = ["op_get_subtree", "op_node_subtree", "op_to_subtree", "op_cut_enter", "op_cut_leave",
             "op_cut_type", "op_cut_order", "op_cut_tip", "op_neurites", "op_dendrites",
             "transform_instance_reused", "numpy_scalar_node_ids", "removals_as_iterator_or_set",
-            "mappings_checked", "tip_exact_threshold_cases", "exhaustive_subsets",
+            "mappings_checked", "mapping_container_reused", "tip_exact_threshold_cases", "exhaustive_subsets",
             "tap_to_sub_topology", "tap_propagate_removal", "tap_get_subtree_impl"]
 FLOOR = {"quick": 2500, "thorough": 50000}
 SHARDS = {"quick": 8, "thorough": 16}
@@ -120,6 +121,19 @@ def _closure(ch, removed):
     return gone
 
 
+def _mapping_container(ctx, mk, n, salt):
+    """The caller's container for the new->old mapping: fresh, or (every other time) one that was
+    used before and still holds the entries of an earlier, larger result."""
+    if mk not in ("list", "dict"):
+        return None
+    reused = salt % 2 == 1
+    if reused:
+        ctx.count("mapping_container_reused")
+    if mk == "list":
+        return [10**6 + j for j in range(n + 3)] if reused else []
+    return {j: 10**6 + j for j in range(n + 3)} if reused else {}
+
+
 def _as_index(ctx, v, salt):
     """The same node id as a Python int or a numpy integer scalar (callers use both)."""
     k = salt % 4
@@ -136,7 +150,7 @@ def _op_subtree(ctx, case, spec, tree, node_api):
     vv = _as_index(ctx, v, case.get("tree", {}).get("seed", 0) + v)  # int, np.int32, np.int64 ...
     ch = topo.children_lists(spec["pid"])
     mk = case.get("mapping", "list")
-    m = [] if mk == "list" else ({} if mk == "dict" else None)
+    m = _mapping_container(ctx, mk, len(spec["pid"]), v)
     if node_api:
         nd = tree.node(vv) if (v % 3) else tree[v - len(spec["pid"])]  # also from the end
         out = nd.subtree(out_mapping=m) if m is not None else nd.subtree()
@@ -155,7 +169,7 @@ def _op_to_subtree(ctx, case, spec, tree):
     rem = case["removals"]
     gone = _closure(ch, rem)
     mk = case.get("mapping", "list")
-    m = [] if mk == "list" else ({} if mk == "dict" else None)
+    m = _mapping_container(ctx, mk, len(spec["pid"]), len(rem))
     form = case.get("as", "list")
     if form in ("generator", "chain", "set"):
         ctx.count("removals_as_iterator_or_set")
